@@ -2353,14 +2353,17 @@ class LinFn(AppFn):
     for the operand (the NotImplemented / TypeError branches are not reached); defaultdict(complex) keyed by str(p) is Linear.dict_add;
     a dict comprehension stores in order; d.keys() == e.keys() compares key sets; p.sign(q) = sign_code, p.multiply(q) = multiply_code,
     p.is_identity() = is_identity; 'I' * k is the identity string of length k."""
-    def __init__(self, tr, node, coq):
+    def __init__(self, tr, node, coq, owner="PauliStringLinear"):
         node.decorator_list = [d for d in node.decorator_list if not (isinstance(d, ast.Name) and d.id == "property")]
-        AppFn.__init__(self, tr, node, "PauliStringLinear", coq)
-        self.params["self"] = LIN
+        self.owner = owner
+        AppFn.__init__(self, tr, node, owner, coq)
+        self.params["self"] = LIN if owner == "PauliStringLinear" else CL
 
     def ann_type(self, a, node):
         txt = ast.unparse(a) if a is not None else None
-        tbl = {"object": LIN, "complex": GI, "int": Z}
+        # `Self` on PauliStringLinear.quadratic is the linear symmetry L_j, a PauliString (its only caller passes one; it is used through
+        # sign / @ / str only); `Self` on a collection method is a collection
+        tbl = {"object": LIN, "complex": GI, "int": Z, "Self": PS if self.owner == "PauliStringLinear" else CL}
         if txt not in tbl: bad(node, "annotation %r" % txt)
         return tbl[txt]
 
@@ -2396,12 +2399,17 @@ class LinFn(AppFn):
     def expr_extra(self, e, env):
         if isinstance(e, ast.Constant) and isinstance(e.value, (float, complex)) and not isinstance(e.value, bool):
             if e.value == 0: return "g0", GI, []
+            if e.value == 1: return "g1", GI, []
             bad(e, "float constant")
+        if isinstance(e, ast.BinOp) and isinstance(e.op, ast.Add) and all(isinstance(x, ast.Call) and isinstance(x.func, ast.Name) and x.func.id == "str" for x in (e.left, e.right)):
+            a, ta, ga = self.expr(e.left, env); b, tb, gb = self.expr(e.right, env)     # text of one string followed by the text of another
+            if ta != PS or tb != PS: bad(e, "str + str of non-PauliStrings")
+            return "(%s ++ %s)" % (a, b), PS, ga + gb
         if isinstance(e, ast.Attribute) and e.attr == "combinations":
             c, t, g = self.expr(e.value, env)
             if t != LIN: bad(e, ".combinations of %r" % (t,))
             return c, LIN, g
-        if isinstance(e, ast.Name) and e.id == "self": return "v_self", LIN, []
+        if isinstance(e, ast.Name) and e.id == "self": return "v_self", self.params["self"], []
         if isinstance(e, ast.BinOp) and isinstance(e.op, ast.Mult) and isinstance(e.left, ast.Constant) and e.left.value == "I":
             c, t, g = self.expr(e.right, env)
             if t != Z: bad(e, "'I' * non-int")
@@ -2609,6 +2617,7 @@ class LinFn(AppFn):
                     if first is not None: raise first
                     bad(self.node, "list %s is never appended to" % v)
                 self.vars[v] = T_list(self.ctypes[v])
+        self.ret = None
         self.block(body, set(), None)
         term = self.block(body, set(), None)
         if self.ret is None: bad(self.node, "no return type")
@@ -2622,7 +2631,12 @@ class LinTranslator:
     def __init__(self, repo):
         self.enums, self.exns, self.fns, self.families = {}, [], {}, {}
         rd = lambda rel: ast.parse(open(os.path.join(repo, "src", "paulie", rel), newline=None, encoding="utf-8-sig").read())
-        lin = rd("common/pauli_string_linear.py"); fac = rd("common/pauli_string_factory.py")
+        lin = rd("common/pauli_string_linear.py"); fac = rd("common/pauli_string_factory.py"); coll = rd("common/pauli_string_collection.py")
+        self.cdefs = {f.name: f for c in coll.body if isinstance(c, ast.ClassDef) and c.name == "PauliStringCollection" for f in c.body if isinstance(f, ast.FunctionDef)}
+        for name, want in (("__iter__", ["self.nextpos = 0", "return self"]),
+                           ("__next__", ["if self.nextpos >= len(self):\n    raise StopIteration", "value = self.generators[self.nextpos]", "self.nextpos += 1", "return value"])):
+            got = [ast.unparse(x) for x in self.cdefs[name].body if not (isinstance(x, ast.Expr) and isinstance(x.value, ast.Constant))] if name in self.cdefs else None
+            if got != want: raise Unsupported("pinned source of PauliStringCollection.%s changed: %r" % (name, got))
         self.defs = {f.name: f for c in lin.body if isinstance(c, ast.ClassDef) and c.name == "PauliStringLinear" for f in c.body if isinstance(f, ast.FunctionDef)}
         def body_of(n):
             return [ast.unparse(x) for x in n.body if not (isinstance(x, ast.Expr) and isinstance(x.value, ast.Constant))]
@@ -2652,12 +2666,16 @@ class LinTranslator:
                "Fixpoint gdict_set (d : list (pstr * gi)) (k : pstr) (v : gi) : list (pstr * gi) :=",
                "  match d with [] => [(k, v)] | (q, e) :: t => if pstr_eqb k q then (q, v) :: t else (q, e) :: gdict_set t k v end.",
                "Definition keys_eqb (a b : list (pstr * gi)) : bool := forallb (fun x => gdict_mem b (fst x)) a && forallb (fun x => gdict_mem a (fst x)) b.", ""]
-        for name in self.WANT:
+        for name in self.WANT + ["quadratic"]:
             node = self.defs.get(name)
             if node is None: raise Unsupported("PauliStringLinear.%s not found in the source" % name)
             f = LinFn(self, node, "py_L_" + name.strip("_"))
             out.append(f.emit()); out.append("")
             self.fns[name] = f
+        node = self.cdefs.get("get_symmetries_for_component")
+        if node is None: raise Unsupported("PauliStringCollection.get_symmetries_for_component not found in the source")
+        f = LinFn(self, node, "py_L_C_get_symmetries_for_component", owner="PauliStringCollection")
+        out.append(f.emit()); out.append("")
         return "\n".join(out)
 
 
